@@ -221,6 +221,93 @@ let () =
             | Base.Err -> "notjson" | Base.Fuel -> "FUEL"))
       | _ -> failwith "de_map")
 
+(* ---- client (C07) ---- *)
+let split_frames (s : string) : string list =
+  (* NUL-terminated frames; a trailing partial frame is dropped *)
+  let parts = String.split_on_char '\000' s in
+  let rec drop_last = function [] -> [] | [_] -> [] | x :: r -> x :: drop_last r in
+  drop_last parts
+
+let err_str (e : Client.errkind) : string =
+  match e with
+  | Client.EBusy -> "err:ConnectionBusy"
+  | Client.ECalledAlready -> "err:MethodCalledAlready"
+  | Client.EOldReply -> "err:IteratorOldReply"
+  | Client.EClosed -> "err:ConnectionClosed"
+  | Client.EDecode -> "err:SerdeJsonDe"
+  | Client.EStd (kind, arg) -> "err:" ^ string_of_bytes kind ^ ":" ^ bh arg
+  | Client.EOther y -> "err:VarlinkErrorReply:" ^ bh (struct_text WireGen.schema_Reply (Wire.record_of_reply y))
+
+let out_str (typed : bool) (o : Client.cout) : string =
+  match o with
+  | Client.RUnit -> "unit"
+  | Client.RNone -> "none"
+  | Client.RErr e -> err_str e
+  | Client.ROk p ->
+    if typed then
+      (match p with
+       | Json.JObj m ->
+         (match Json.obj_get (bytes_of_string "x") m with
+          | Some (Json.JInt z) ->
+            (* i64 *)
+            let s = string_of_bytes (Json.print (Json.JInt z)) in
+            let neg = String.length s > 0 && s.[0] = '-' in
+            let digits = if neg then String.sub s 1 (String.length s - 1) else s in
+            let lim = if neg then "9223372036854775808" else "9223372036854775807" in
+            if String.length digits < 19 || (String.length digits = 19 && digits <= lim) then "ok:typed" else "err:SerdeJsonDe"
+          | _ -> "err:SerdeJsonDe")
+       | Json.JArr [Json.JInt _] -> "ok:typed"
+       | _ -> "err:SerdeJsonDe")
+    else "ok:" ^ bh (Json.print p)
+
+let () =
+  register "client" (fun toks ->
+      let (pre, ops) = split_bar [] toks in
+      let inbox = match pre with [] -> "" | x :: _ -> unhex x in
+      let frames = Stdlib.List.map (fun f ->
+          match Wire.decode_reply (bytes_of_string f) with
+          | Base.Ok y -> Client.FReply y
+          | _ -> Client.FGarbage) (split_frames inbox) in
+      let st = ref (Client.cs_init Datatypes.O frames) in
+      let typed = ref [] in
+      let ncalls = ref 0 in
+      let outs = ref [] in
+      let step o = let (s1, x) = Client.cstep !st o in st := s1; x in
+      let is_typed k = (try Stdlib.List.nth (Stdlib.List.rev !typed) k with _ -> false) in
+      Stdlib.List.iter (fun op ->
+          let (name, k) = match String.index_opt op ':' with
+            | Some i -> (String.sub op 0 i, int_of_string (String.sub op (i+1) (String.length op - i - 1)))
+            | None -> (op, 0) in
+          let kk = nat_of_int k in
+          match name with
+          | "new" | "newt" ->
+            let s = !st in
+            st := { s with Client.cs_calls = s.Client.cs_calls @ [Client.new_call] };
+            typed := (name = "newt") :: !typed; incr ncalls
+          | "call" | "upgrade" ->
+            let x = step (Client.OSend (kk, false, false, name = "upgrade")) in
+            (match x with
+             | Client.RUnit -> outs := out_str (is_typed k) (step (Client.ORecv kk)) :: !outs
+             | _ -> outs := out_str false x :: !outs)
+          | "oneway" -> outs := out_str false (step (Client.OSend (kk, true, false, false))) :: !outs
+          | "more" ->
+            let _ = step (Client.OSetCont kk) in
+            outs := out_str false (step (Client.OSend (kk, false, true, false))) :: !outs
+          | "next" -> outs := out_str false (step (Client.ONext kk)) :: !outs
+          | "recv" -> outs := out_str false (step (Client.ORecv kk)) :: !outs
+          | _ -> outs := "BAD-OP" :: !outs) ops;
+      let s = !st in
+      let sent = Stdlib.List.rev_map (fun (((k, ow), mo), up) ->
+          let ki = int_of_nat k in
+          let q = { Wire.r_more = (if mo then Some true else None); r_oneway = (if ow then Some true else None);
+                    r_upgrade = (if up then Some true else None);
+                    r_method = bytes_of_string (Printf.sprintf "org.example.M%d" ki);
+                    r_params = Some (Json.JObj [ (bytes_of_string "k", Json.JInt (BinInt.Z.of_nat k)) ]) } in
+          string_of_bytes (Wire.encode_request q) ^ "\000") s.Client.cs_sent in
+      Printf.sprintf "outs=%s sent=%s idle=%d"
+        (if !outs = [] then "-" else String.concat ";" (Stdlib.List.rev !outs))
+        (hex (String.concat "" sent)) (if s.Client.cs_idle then 1 else 0))
+
 let () =
   let tbl = handlers in
   (try
